@@ -633,6 +633,11 @@ func (pkg *Package) check(filenames []CurrPath, mklines, allLines *MkLines) {
 	pkg.checkDistfilesInDistinfo(allLines)
 	pkg.checkPkgConfig(allLines)
 	pkg.checkWipCommitMsg()
+
+	// Checking the other files of the package may fix lines of the
+	// package Makefile as well, for example the PLIST check that
+	// removes the unnecessary inclusion of omf-scrollkeeper.mk.
+	mklines.SaveAutofixChanges()
 }
 
 func (pkg *Package) checkDescr(filenames []CurrPath, mklines *MkLines) {
